@@ -672,12 +672,16 @@ func (obj *SparseFloat32Matrix) JointIterator(b ConstMatrix) MatrixJointIterator
   return obj.JOINT_ITERATOR(b)
 }
 func (obj *SparseFloat32Matrix) ITERATOR() *SparseFloat32MatrixIterator {
-  r := SparseFloat32MatrixIterator{*obj.values.ITERATOR(), obj}
+  // start at the first element of the (possibly sliced) matrix
+  k := obj.rowOffset*obj.colMax + obj.colOffset
+  r := SparseFloat32MatrixIterator{*obj.values.ITERATOR_FROM(k), obj}
+  r.clip()
   return &r
 }
 func (obj *SparseFloat32Matrix) ITERATOR_FROM(i, j int) *SparseFloat32MatrixIterator {
   k := obj.index(i, j)
   r := SparseFloat32MatrixIterator{*obj.values.ITERATOR_FROM(k), obj}
+  r.clip()
   return &r
 }
 func (obj *SparseFloat32Matrix) JOINT_ITERATOR(b ConstMatrix) *SparseFloat32MatrixJointIterator {
@@ -698,6 +702,28 @@ type SparseFloat32MatrixIterator struct {
 }
 func (obj *SparseFloat32MatrixIterator) Index() (int, int) {
   return obj.m.ij(obj.SparseFloat32VectorIterator.Index())
+}
+func (obj *SparseFloat32MatrixIterator) Ok() bool {
+  if !obj.SparseFloat32VectorIterator.Ok() {
+    return false
+  }
+  // stop after the last row of a sliced matrix
+  i, _ := obj.Index()
+  return i < obj.m.rows
+}
+func (obj *SparseFloat32MatrixIterator) Next() {
+  obj.SparseFloat32VectorIterator.Next()
+  obj.clip()
+}
+// skip entries of the storage that are not within the columns of a
+// sliced matrix
+func (obj *SparseFloat32MatrixIterator) clip() {
+  for obj.Ok() {
+    if _, j := obj.Index(); j >= 0 && j < obj.m.cols {
+      break
+    }
+    obj.SparseFloat32VectorIterator.Next()
+  }
 }
 func (obj *SparseFloat32MatrixIterator) Clone() *SparseFloat32MatrixIterator {
   return &SparseFloat32MatrixIterator{*obj.SparseFloat32VectorIterator.Clone(), obj.m}
